@@ -8,7 +8,7 @@ import impl, s_tree as T
 def gen_case(g, prop):
     dname = g.choice(['in', 'my.proj', 'd-x', 'Src'])
     children = T.gen_dir(g, 0, max_depth=3, want_cmake=True, k4=(prop == 'C17' and g.random() < 0.3))
-    st = dict(recursive=g.random() < 0.7, auto_exclude=g.random() < 0.6, prefix=g.choice([None, None, 'PFX', 'p.q']),
+    st = dict(recursive=g.random() < 0.7, auto_exclude=g.random() < 0.6, prefix=g.choice([None, None, 'PFX', 'p.q'] + (['two words'] if prop == 'C12' else [])),
               sep='.', ext_titles=False, ext_modules=False, headers=None, cfg=None)
     pats = []
     output = g.choice(['abs', 'abs', 'rel', 'nested'] + (['nested', 'nested'] if prop == 'C17' else []))
@@ -39,6 +39,10 @@ def gen_case(g, prop):
                 if 'children' in c: crlf(c['children'])
                 elif c.get('content') and gc.random() < 0.15: c['content'] = c['content'].replace('\r\n', '\n').replace('\n', '\r\n')
         crlf(children)
+        if g.random() < 0.15:
+            hosts = [children] + [c['children'] for c in children if 'children' in c and not c.get('dirlink')]
+            h = g.choice(hosts)
+            if not any(c['name'].lower().startswith('index.') for c in h): h.append(dict(name='index.cmake', content='#[[[\n# The index module.\n#]]\nfunction(index_f a)\nendfunction()\n'))
         if g.random() < 0.3:      # a CMake file that is a symbolic link to a file outside the input tree
             def link_one(ch):
                 fs = [c for c in ch if 'children' not in c and c['name'].lower().endswith('.cmake')]
